@@ -6,7 +6,7 @@ open Model
 open Conv
 let run () =
   let n = int_of_string Sys.argv.(2) in
-  let st = ref (Model.init (nat_of_int n)) in
+  let st = ref (Model.barrier_init (nat_of_int n)) in
   let pending = Array.make n 0 in
   let used = Array.make n 0 in
   let bad = ref false in
